@@ -25,7 +25,7 @@ ASSUMPTIONS = ['the memoising stack gets its candidate set from a counting pre-p
 STACKS = ['basic', 'stateful', 'counting', 'serializing', 'pretty', 'memo(ser,count)', 'instopt(stateful)', 'memo(instopt(ser))']
 FLOORS = {'quick': {'expressions': 1000, **{f'ran:{s}': 1000 for s in STACKS}, 'empty_or_identity_instantiation': 100, 'memoizer_emitted_save_load': 50, 'run_twice': 300,
                     'static_instantiate_expressions': 100}}
-FLOORS['thorough'] = dict(FLOORS['quick'], expressions=30000)
+FLOORS['thorough'] = dict(FLOORS['quick'], expressions=20000)
 
 
 def make(stack, mod, claims, memo_set):
@@ -91,7 +91,7 @@ def shard(ctx):
     rng = ctx.rng
     C = repo.mod('counting_interpreter').CountingInterpreter
     I = repo.mod('interpreter')
-    n = ctx.scale(250, 20000)
+    n = ctx.scale(250, 6000)
     for k in range(n):
         try:
             b = mw.random_module(rng, static_instantiate=0.12, pool_rounds=rng.randint(2, 8))
